@@ -7,7 +7,7 @@ import ast
 from ..absint import Sym, Itv
 from ..model import walk_shallow, call_name, is_self_attr, dotted_name, parent, ancestors, enclosing_function, AnalysisError
 from ..util import (has_call, find_calls, assigned_value, const_str, unparse, kw, arg_or_kw, enclosing_stmt,
-                    guards_of, call_tail, control_ancestors)
+                    guards_of, call_tail, control_ancestors, name_bound, bound_names)
 from .. import mutate as M
 
 EXPLANATION = ("Effect analysis of coba/random.py (CobaRandom touches only its own three fields, no module state, pure "
@@ -64,6 +64,10 @@ def r1_effects(ctx):
             if isinstance(x, ast.Name) and isinstance(x.ctx, ast.Load) and x.id in module_names:
                 n += 1
                 ctx.ob("C05.R1", RND, qual, x, "module-level state is not read by generator methods", False, stmt=f"reads module variable {x.id}")
+            if isinstance(x, ast.Call) and call_name(x) in ("hash", "id", "os.getpid", "getpid", "os.urandom", "urandom", "uuid.uuid4", "uuid4", "object") \
+                    and not mname.startswith("__h"):
+                n += 1
+                ctx.ob("C05.R1", RND, qual, x, f"no process-dependent source ({call_name(x)}) feeds the generator (str hashes are salted per process)", False)
             if isinstance(x, ast.Attribute) and isinstance(x.value, ast.Name) and x.value.id == "CobaRandom" and isinstance(x.ctx, ast.Store):
                 n += 1
                 ctx.ob("C05.R1", RND, qual, x, "no class-level state is written", False)
@@ -261,12 +265,13 @@ def r3_intervals(ctx):
                 ok = False
         ctx.ob("C05.R3", RND, "CobaRandom.__init__", c, "modulus m is a literal power of two (so `& (m-1)` is `mod m`)", ok,
                detail={"m": unparse(m_arg) if m_arg is not None else None})
-    masks = assigned_value(nu, "m_1")
+    M1 = name_bound(nu, lambda v: unparse(v) == "m - 1", "m_1")
+    masks = assigned_value(nu, M1)
     upd = [x for x in walk_shallow(nu) if isinstance(x, ast.Assign) and unparse(x.targets[0]) == "s"]
     ys = [y for y in walk_shallow(nu) if isinstance(y, ast.Yield)]
     ok_mask = len(masks) == 1 and unparse(masks[0]) == "m - 1"
     ok_upd = len(upd) == 1 and isinstance(upd[0].value, ast.BinOp) and isinstance(upd[0].value.op, ast.BitAnd) \
-        and unparse(upd[0].value.right) in ("m_1", "m - 1") and unparse(upd[0].value.left) in ("a * s + c", "c + a * s", "s * a + c")
+        and unparse(upd[0].value.right) in (M1, "m - 1") and unparse(upd[0].value.left) in ("a * s + c", "c + a * s", "s * a + c")
     ok_y = len(ys) == 1 and unparse(ys[0].value) == "s / m"
     ctx.ob("C05.R3", RND, "CobaRandom._next_uniform", upd[0] if upd else nu,
            "state update is (a*s+c) & (m-1): s in [0, m-1]", ok_mask and ok_upd, stmt="lcg update")
@@ -305,7 +310,7 @@ def r3_intervals(ctx):
         a_itv = Itv(0, 0, integer=True) if arm_a0 else Itv(sym("a"), sym("a"), integer=True)
         a_sym = Sym(0) if arm_a0 else sym("a")
         env = {"a": a_itv, "b": Itv(b1, b1, integer=True), g.target.id: U()}
-        for nm in ("r_range",):
+        for nm in sorted({x.id for x in ast.walk(comp.elt) if isinstance(x, ast.Name)} - set(env)):
             vals = assigned_value(fn, nm)
             if len(vals) == 1:
                 try:
@@ -329,7 +334,8 @@ def r3_intervals(ctx):
     ctx.floor("C05.R3", "cumulative-weight search in choice", len(maps), 1)
     for c in maps:
         f = c.args[0]
-        ok_shape = isinstance(f, ast.Attribute) and unparse(f.value) in ("next(self._randu) * tot", "tot * next(self._randu)") \
+        TOT = name_bound(fn, lambda v: unparse(v) == "sum(weights)", "tot")
+        ok_shape = isinstance(f, ast.Attribute) and unparse(f.value) in (f"next(self._randu) * {TOT}", f"{TOT} * next(self._randu)") \
             and unparse(c.args[1]) == "accumulate(weights)"
         strict = isinstance(f, ast.Attribute) and f.attr == "__lt__"
         ctx.ob("C05.R3", RND, "CobaRandom.choice", c,
@@ -338,9 +344,10 @@ def r3_intervals(ctx):
         p = parent(c)
         ok_first = isinstance(p, ast.Call) and call_name(p) == "compress" and unparse(p.args[0]) == "seq" and isinstance(parent(p), ast.Call) and call_name(parent(p)) == "next"
         ctx.ob("C05.R3", RND, "CobaRandom.choice", c, "the first index passing the comparison is returned (next(compress(seq, ...)))", ok_first, stmt="first hit:" + unparse(c)[:80])
-    tots = assigned_value(fn, "tot")
+    TOT = name_bound(fn, lambda v: unparse(v) == "sum(weights)", "tot")
+    tots = assigned_value(fn, TOT)
     ctx.ob("C05.R3", RND, "CobaRandom.choice", fn, "tot is sum(weights) and a zero total is rejected",
-           len(tots) == 1 and unparse(tots[0]) == "sum(weights)" and any(isinstance(x, ast.If) and unparse(x.test) == "tot == 0" and any(isinstance(y, ast.Raise) for y in x.body) for x in walk_shallow(fn)),
+           len(tots) == 1 and unparse(tots[0]) == "sum(weights)" and any(isinstance(x, ast.If) and unparse(x.test) == f"{TOT} == 0" and any(isinstance(y, ast.Raise) for y in x.body) for x in walk_shallow(fn)),
            stmt="tot")
     # --- choicew
     fn = ctx.fn(RND, "CobaRandom.choicew")
@@ -349,8 +356,9 @@ def r3_intervals(ctx):
     for r in rets:
         t = unparse(r.value)
         if "weights[" in t:
-            iv = assigned_value(fn, "i")
-            ok = t == "(seq[i], weights[i])" and len(iv) == 1 and unparse(iv[0]) == "self.choice(range(len(seq)), weights)"
+            IX = name_bound(fn, lambda v: unparse(v) == "self.choice(range(len(seq)), weights)", "i")
+            iv = assigned_value(fn, IX)
+            ok = t == f"(seq[{IX}], weights[{IX}])" and len(iv) == 1
             ctx.ob("C05.R3", RND, "CobaRandom.choicew", r, "weighted choicew returns seq[i], weights[i] for the one sampled index i", ok)
         else:
             ok = t == "(self.choice(seq), 1 / len(seq))"
@@ -359,23 +367,30 @@ def r3_intervals(ctx):
     fn = ctx.fn(RND, "CobaRandom.shuffle")
     loops = [x for x in walk_shallow(fn) if isinstance(x, ast.For)]
     ctx.floor("C05.R3", "shuffle loop", len(loops), 1)
+    LST = name_bound(fn, lambda v: isinstance(v, ast.IfExp) and "items" in unparse(v), "l")
+    NN = name_bound(fn, lambda v: unparse(v) == f"len({LST})", "n")
     for lp in loops:
-        ok, d = _shuffle_index(lp)
+        ok, d = _shuffle_index(lp, NN)
         ctx.ob("C05.R3", RND, "CobaRandom.shuffle", lp, "shuffle index j = i + floor((n-i)*U) lies in [i, n-1] for i in 0..n-2", ok, detail=d)
         stores = [s for s in lp.body]
         ok_swap = len(stores) == 1 and _is_swap(stores[0])
+        if ok_swap and isinstance(lp.target, ast.Tuple) and len(lp.target.elts) == 2:
+            idx = {unparse(stores[0].targets[0].elts[0].slice), unparse(stores[0].targets[0].elts[1].slice)}
+            ok_swap = idx == {unparse(lp.target.elts[0]), unparse(lp.target.elts[1])} and unparse(stores[0].targets[0].elts[0].value) == LST
         ctx.ob("C05.R3", RND, "CobaRandom.shuffle", stores[0] if stores else lp, "every store into the list is a two-element swap (the result is a permutation)", ok_swap)
     other = [x for x in walk_shallow(fn) if isinstance(x, (ast.Assign, ast.AugAssign)) and any(isinstance(t, ast.Subscript) for t in
              (x.targets if isinstance(x, ast.Assign) else [x.target])) and not any(x in lp.body for lp in loops)]
     muts = [x for x in walk_shallow(fn) if isinstance(x, ast.Call) and isinstance(x.func, ast.Attribute) and x.func.attr in
-            ("append", "pop", "insert", "remove", "extend", "clear") and unparse(x.func.value) == "l"]
+            ("append", "pop", "insert", "remove", "extend", "clear") and unparse(x.func.value) == LST]
     ctx.ob("C05.R3", RND, "CobaRandom.shuffle", fn, "no other write adds, drops or overwrites an element", not other and not muts, stmt="no other list writes")
-    lv = assigned_value(fn, "l")
+    lv = assigned_value(fn, LST)
     ctx.ob("C05.R3", RND, "CobaRandom.shuffle", fn, "the shuffled list is the input (inplace) or list(items)",
            len(lv) == 1 and unparse(lv[0]) == "items if inplace else list(items)", stmt="l := items|list(items)")
     # --- gauss: log argument must exclude 0
     fn = ctx.fn(RND, "CobaRandom._next_gaussian")
-    logs = [c for c in walk_shallow(fn) if isinstance(c, ast.Call) and call_name(c) in ("log", "math.log")]
+    LOGS = set(bound_names(fn, lambda v: unparse(v) == "math.log")) | {"math.log", "log"}
+    SQRTS = set(bound_names(fn, lambda v: unparse(v) == "math.sqrt")) | {"math.sqrt", "sqrt"}
+    logs = [c for c in walk_shallow(fn) if isinstance(c, ast.Call) and call_name(c) in LOGS]
     ctx.floor("C05.R3", "log calls in _next_gaussian", len(logs), 1)
     for c in logs:
         A = Abs({}, [], [])
@@ -386,10 +401,10 @@ def r3_intervals(ctx):
         except Unproved as e:
             ok, d = False, f"range not established: {e}"
         ctx.ob("C05.R3", RND, "CobaRandom._next_gaussian", c, "argument of log excludes 0 (gauss is finite for every generator state)", ok, detail=d)
-    sq = [c for c in walk_shallow(fn) if isinstance(c, ast.Call) and call_name(c) in ("sqrt", "math.sqrt")]
+    sq = [c for c in walk_shallow(fn) if isinstance(c, ast.Call) and call_name(c) in SQRTS]
     for c in sq:
-        t = unparse(c.args[0])
-        ok = t.startswith("-2 * log(")
+        a0 = c.args[0]
+        ok = isinstance(a0, ast.BinOp) and isinstance(a0.op, ast.Mult) and unparse(a0.left) == "-2" and isinstance(a0.right, ast.Call) and call_name(a0.right) in LOGS
         ctx.ob("C05.R3", RND, "CobaRandom._next_gaussian", c, "sqrt argument is -2*log(u) with u <= 1, i.e. non-negative", ok)
 
 
@@ -410,29 +425,31 @@ def _randoms_shape(fn):
     """out = self._randu; if diff != 1: out = map(diff.__mul__, out); if min != 0: out = map(min.__add__, out);
     return list(islice(out, n)).  Each skipped map is the identity under its guard, so the element is min + diff*U."""
     d = {}
-    diff = assigned_value(fn, "diff")
+    DIFF = name_bound(fn, lambda v: unparse(v) == "max - min", "diff")
+    OUT = name_bound(fn, lambda v: unparse(v) == "self._randu", "out")
+    diff = assigned_value(fn, DIFF)
     d["diff"] = [unparse(v) for v in diff]
     ok = len(diff) == 1 and unparse(diff[0]) == "max - min"
-    outs = [x for x in walk_shallow(fn) if isinstance(x, ast.Assign) and unparse(x.targets[0]) == "out"]
+    outs = [x for x in walk_shallow(fn) if isinstance(x, ast.Assign) and unparse(x.targets[0]) == OUT]
     shapes = []
     for o in outs:
         g = [(unparse(t), p) for t, p in guards_of(o, fn)]
         shapes.append((unparse(o.value), g))
     d["out"] = shapes
-    want = {("self._randu", ()), ("map(diff.__mul__, out)", (("diff != 1", True),)), ("map(min.__add__, out)", (("min != 0", True),))}
+    want = {("self._randu", ()), (f"map({DIFF}.__mul__, {OUT})", ((f"{DIFF} != 1", True),)), (f"map(min.__add__, {OUT})", (("min != 0", True),))}
     got = {(v, tuple(g)) for v, g in shapes}
     ok = ok and got == want
     # order: multiply before add
     order = [v for v, _ in sorted(((unparse(o.value), o.lineno) for o in outs), key=lambda t: t[1])]
-    ok = ok and order == ["self._randu", "map(diff.__mul__, out)", "map(min.__add__, out)"]
+    ok = ok and order == ["self._randu", f"map({DIFF}.__mul__, {OUT})", f"map(min.__add__, {OUT})"]
     rets = [unparse(r.value) for r in walk_shallow(fn) if isinstance(r, ast.Return) and r.value is not None]
     d["return"] = rets
-    ok = ok and rets == ["list(islice(out, n)) if n is not None else out"]
+    ok = ok and rets == [f"list(islice({OUT}, n)) if n is not None else {OUT}"]
     # interval: min + (max-min)*[0,1) = [min, max)
     return ok, d
 
 
-def _shuffle_index(lp):
+def _shuffle_index(lp, NN="n"):
     """for i,j in enumerate(map(add, range(n), map(floor, map(mul, range(n,1,-1), self._randu)))):
     element k of range(n) is k, of range(n,1,-1) is n-k (k = 0..n-2), so j = k + floor((n-k)*U)."""
     it = lp.iter
@@ -440,7 +457,7 @@ def _shuffle_index(lp):
     if not (isinstance(it, ast.Call) and call_name(it) == "enumerate" and len(it.args) == 1):
         return False, d
     m1 = it.args[0]
-    if not (isinstance(m1, ast.Call) and call_name(m1) == "map" and len(m1.args) == 3 and unparse(m1.args[0]) == "add" and unparse(m1.args[1]) == "range(n)"):
+    if not (isinstance(m1, ast.Call) and call_name(m1) == "map" and len(m1.args) == 3 and unparse(m1.args[0]) == "add" and unparse(m1.args[1]) == f"range({NN})"):
         return False, d
     m2 = m1.args[2]
     if not (isinstance(m2, ast.Call) and call_name(m2) == "map" and len(m2.args) == 2 and unparse(m2.args[0]) == "floor"):
@@ -454,7 +471,7 @@ def _shuffle_index(lp):
     start, stop, step = [unparse(a) for a in rng.args]
     d["multiplier_range"] = (start, stop, step)
     # element k (k = 0, 1, ...) of range(start, stop, -1) with start == n is n-k and exists while n-k > stop
-    if not (start == "n" and step == "-1"):
+    if not (start == NN and step == "-1"):
         return False, d
     try:
         stop_v = int(stop)
@@ -476,8 +493,11 @@ def _shuffle_index(lp):
     # the last swapped position must be n-2 (i runs to n-2): stop must be 1 so that all positions but the last are drawn
     d["i_range"] = f"0..n-{stop_v + 1}"
     ok = ok and stop_v == 1
-    tgt = unparse(lp.target)
-    ok = ok and tgt == "(i, j)"
+    ok = ok and isinstance(lp.target, ast.Tuple) and len(lp.target.elts) == 2
+    if ok:
+        # the swap in the loop body must use exactly (index of enumerate, drawn position)
+        ti, tj = unparse(lp.target.elts[0]), unparse(lp.target.elts[1])
+        d["targets"] = (ti, tj)
     return ok, d
 
 
